@@ -279,6 +279,8 @@ func runC13(c *core.Ctx) {
 	}
 	// selection by instants that differ only in the fraction of a second (shared with C06)
 	c06SubSecond(c, [][]string{{"csv", "log"}})
+	// an export that was interrupted is not a complete export: it never ends with status 0
+	interruptedRuns(c, map[string]string{"csv log": "log", "csv database": "book", "csv database-resolved": "book"})
 	jobs, deaths := pool.Stats()
 	c.Count("l2_jobs", jobs)
 	c.Count("l2_process_deaths", deaths)
